@@ -67,6 +67,8 @@ type VC struct {
 	replayFn    *FuncInfo
 	replayLemma *Lemma
 	globalsDone map[types.Object]bool
+	ndecl       int  // number of declared constants (to detect impure closure evaluation)
+	inlineDefs  bool // define() returns the term itself (closure-as-predicate evaluation)
 }
 
 type exclusion struct {
@@ -95,13 +97,14 @@ func (e *Engine) newVC(fn string) *VC {
 }
 
 func (vc *VC) declare(prefix, sort string) string {
+	vc.ndecl++
 	n := vc.eng.fresh(prefix)
 	vc.eng.syms.add(n, fmt.Sprintf("(declare-fun %s () %s)", n, sort))
 	return n
 }
 
 func (vc *VC) define(prefix, sort, term string) string {
-	if isAtom(term) {
+	if isAtom(term) || vc.inlineDefs {
 		return term
 	}
 	n := vc.eng.fresh(prefix)
